@@ -28,6 +28,8 @@ def canon(v):
             return (k,)
         if k == "builtin":
             return ("builtin", v.get("name"))
+        if k == "userfunc":
+            return ("userfunc", v.get("name"))
         return ("other", json.dumps(v, sort_keys=True))
     return ("raw", json.dumps(v, sort_keys=True))
 
